@@ -1,7 +1,7 @@
 (* Model/Close.v — C12: life-cycle of ONE session at the granularity of its flags and of the
    worker loop (ncclient/transport/{ssh,tls,unixSocket}.py close, session.py Session.run,
    operations/session.py CloseSession.request, manager.py connect_* cleanup, Manager.__exit__).
-   Definitions only.  The model follows the repaired code (F11a/b/c, F12, F22-F25).
+   Definitions only.  The model follows the repaired code (F11a-h, F12).
 
    A labelled transition system [step : state -> label -> option state]; the environment
    (what select/recv answer, whether paramiko's transport is still active, how many messages
